@@ -8,7 +8,12 @@ import (
 )
 
 // VerifDir is where MANIFEST.json, evidence/ and known_findings.json live.
-var VerifDir = "/verif"
+var VerifDir = func() string {
+	if d := os.Getenv("VERIF_DIR"); d != "" {
+		return d
+	}
+	return "/verif"
+}()
 
 // OutDir is where evidence/ and replays are written (VERIF_OUT overrides it during development,
 // e.g. when a scratch copy of the library is evaluated in parallel).
